@@ -1,14 +1,9 @@
-# Per-property configuration of the driver. One entry per property; an entry may have several parts
-# (engines / harnesses) whose counters are merged into one evidence file.
-PROPS = {}
-
-PROPS["C19"] = dict(
-    harness="c19", level="exploration",
-    quick=dict(cases=24000, max_size=80, workers=8),
-    thorough=dict(cases=1600000, max_size=200, workers=16),
-    rule=("rapidcheck sequences of ConstPool add(size in 1..64 valid and invalid; data from a small 4-byte-word alphabet so that "
-          "equal constants and halves/quarters of wider ones recur) / fill / reset / embed_const_pool, judged by an explicit byte-image "
-          "model; a case is non-trivial when an alignment gap was created AND a later constant was placed into a gap or shared with a "
-          "wider constant; distinct = distinct case text"),
-    assumptions=["ASan+UBSan build with ASMJIT_ASSERT active", "overlap is allowed only for nested power-of-two blocks with equal bytes (registered sub-constants)"],
-)
+# Loads cfg/C??.py: each defines PROP (driver configuration) and META (manifest texts).
+import os, glob, runpy
+ROOT = os.path.dirname(os.path.dirname(os.path.abspath(__file__)))
+PROPS, METAS = {}, {}
+for f in sorted(glob.glob(os.path.join(ROOT, "cfg", "C*.py"))):
+    pid = os.path.basename(f)[:-3]
+    ns = runpy.run_path(f)
+    PROPS[pid] = ns["PROP"]
+    METAS[pid] = ns.get("META", {})
